@@ -4,7 +4,8 @@
    Vocabulary.  A token given to the printer (Model/EPrint.v, [etok]) carries what print_tokens()
    reads: kind, spelling, has_space, at_bol, and [e_adj] = the outcome of the C test
    `prev && prev->file == tok->file && prev->loc + prev->len == tok->loc`.
-   [eprint] is print_tokens; [tokenize punct_table] is tokenize() of tokenize.c (Model/Lexer.v) with
+   [eprint] is print_tokens (including the space behind a `\\` token before a new-line, f21a1fb, and the
+   space in front of a first token beginning with EF BB BF, 87479b9); [tokenize punct_table] is tokenize() of tokenize.c (Model/Lexer.v) with
    the punctuator table regenerated from the source; [relex ts] is the token list - flags included -
    that reading the printed text must give.
    [printable_src ts]: every token of ts was cut by tokenize() out of SOME text in which it was followed
@@ -14,7 +15,7 @@
    these tokens.  Nothing is assumed about tokens that are NOT glued: they may come from anywhere
    (macro bodies, arguments, pasted or stringized text, other files) and may fuse at will. *)
 From Coq Require Import List NArith Bool.
-From Chibicc Require Import Model.Lexer Gen.PunctTable Proofs.LexerProofs Model.EPrint Spec.EPrintSpec Proofs.EPrintProofs.
+From Chibicc Require Import Model.Lexer Gen.PunctTable Proofs.LexerProofs Model.Phases Model.EPrint Spec.EPrintSpec Proofs.EPrintProofs.
 Import ListNotations.
 Local Open Scope N_scope.
 
@@ -51,8 +52,8 @@ Print Assumptions C19_eprint_printable_decidable.
 (* Soundness of the printer's decision for a pair: whenever print_tokens() writes token b directly
    behind token a (no space, no new-line), the tokenizer reading the output from the first byte of a
    cuts exactly a - whatever follows b in the output. *)
-Theorem C19_eprint_glued_pair_sound : forall a b rest, printable_src (a :: b :: rest) -> glued b = true ->
-  exists more, eprint_from false (a :: b :: rest) = sep_before false a ++ e_text a ++ e_text b ++ more /\
+Theorem C19_eprint_glued_pair_sound : forall a b rest pb, printable_src (a :: b :: rest) -> glued b = true ->
+  exists more, eprint_from false pb (a :: b :: rest) = sep_before false pb a ++ e_text a ++ e_text b ++ more /\
                first_token punct_table (e_text a ++ e_text b ++ more) = Some (e_kind a, length (e_text a)).
 Proof. exact glued_pair_sound. Qed.
 Print Assumptions C19_eprint_glued_pair_sound.
@@ -78,9 +79,26 @@ Theorem C19_eprint_hash_at_line_start : forall ts, no_directive (relex ts) = neg
 Proof. exact relex_no_directive. Qed.
 Print Assumptions C19_eprint_hash_at_line_start.
 
-(* Hence, unless the output begins with `#`, the -E text is faithful: same preprocessing tokens and
-   nothing in it is taken for a directive when it is read again. *)
-Theorem C19_eprint_faithful : forall ts, printable_src ts -> leading_hash ts = false ->
+(* Phases 1 and 2 of whoever reads the -E text leave it alone: it does not begin with a byte order mark
+   (an identifier beginning with U+FEFF as first token gets a space in front), holds no backslash
+   directly before a new-line (a `\` token is followed by a space there, also at the very end) and no
+   carriage return.  [clean_tokens]: no spelling holds a CR or backslash-new-line itself, and only the
+   `\` token ends in a backslash - true of every spelling tokenize() cuts from a file. *)
+Theorem C19_eprint_survives_phases_1_2 : forall ts, printable_src ts -> clean_tokens ts = true ->
+  survives_phases_1_2 (eprint ts) = true.
+Proof. exact eprint_survives_phases_1_2. Qed.
+Print Assumptions C19_eprint_survives_phases_1_2.
+
+(* The same against the model of tokenize_file's phases 1-2 (Model/Phases.v) and its BOM test: reading
+   the -E text the way chibicc reads a file gives exactly the tokens that were printed. *)
+Theorem C19_eprint_reread : forall ts, printable_src ts -> clean_tokens ts = true ->
+  tokenize punct_table (phases12 (strip_bom (eprint ts))) = LexOk (relex ts).
+Proof. exact eprint_reread. Qed.
+Print Assumptions C19_eprint_reread.
+
+(* Hence, unless the output begins with `#`, the -E text is faithful: same preprocessing tokens,
+   nothing in it is taken for a directive, and phases 1-2 do not touch it. *)
+Theorem C19_eprint_faithful : forall ts, printable_src ts -> clean_tokens ts = true -> leading_hash ts = false ->
   faithful (tokenize punct_table) (eprint ts) (given ts).
 Proof. exact eprint_faithful. Qed.
 Print Assumptions C19_eprint_faithful.
@@ -127,6 +145,21 @@ Example C19_eprint_nonvacuous_mixed :
   faithful (tokenize punct_table) (eprint ex_mixed) (given ex_mixed).
 Proof. exact ex_mixed_ok. Qed.
 Print Assumptions C19_eprint_nonvacuous_mixed.
+
+(* non-vacuity for the two repairs: `\` tokens before new-lines and at the very end; U+FEFF first *)
+Example C19_eprint_nonvacuous_backslash :
+  printable_src ex_bslash /\ clean_tokens ex_bslash = true /\
+  eprint ex_bslash = [97; 32; 92; 32; 10; 120; 92; 32; 10; 98; 32; 92; 32; 10] /\
+  faithful (tokenize punct_table) (eprint ex_bslash) (given ex_bslash).
+Proof. exact ex_bslash_ok. Qed.
+Print Assumptions C19_eprint_nonvacuous_backslash.
+
+Example C19_eprint_nonvacuous_bom :
+  printable_src ex_bom /\ clean_tokens ex_bom = true /\
+  eprint ex_bom = [32; 239; 187; 191; 120; 32; 61; 32; 49; 10] /\
+  faithful (tokenize punct_table) (eprint ex_bom) (given ex_bom).
+Proof. exact ex_bom_ok. Qed.
+Print Assumptions C19_eprint_nonvacuous_bom.
 
 (* the hypothesis is not empty talk: impossible token lists are rejected *)
 Example C19_eprint_not_printable :
